@@ -27,6 +27,9 @@ def main():
             items = idx
         elif mode == "ext":
             items = [{"e": i} for i in idx]
+        elif mode == "boundary":
+            items = [{"v": i} for i in idx if i < len(universe.boundary_battery())]
+            idx = idx[:len(items)]
         elif mode == "battery":
             items = [{"b": i} for i in idx if i < len(universe.battery())]
             idx = idx[:len(items)]
